@@ -16,24 +16,25 @@ var libHandlers map[string]libHandler
 
 func init() {
 	libHandlers = map[string]libHandler{
-		"errors.New":            libNewErr,
-		"fmt.Errorf":            libNewErr,
-		"strconv.Itoa":          libItoa,
-		"strconv.FormatFloat":   libFormatFloat,
-		"strconv.Atoi":          libAtoi,
-		"strings.Join":          libJoin,
-		"strings.ToUpper":       libStrFun("gs.upper"),
-		"(*os.File).WriteString": libNoop,
-		"fmt.Fprintf":           libFprint,
-		"fmt.Fprintln":          libFprint,
-		"fmt.Fprint":            libFprint,
-		"(io.Writer).Write":     libWrite,
+		"errors.New":              libNewErr,
+		"fmt.Errorf":              libNewErr,
+		"strconv.Itoa":            libItoa,
+		"strconv.FormatFloat":     libFormatFloat,
+		"strconv.Atoi":            libAtoi,
+		"strings.Join":            libJoin,
+		"strings.ToUpper":         libStrFun("gs.upper"),
+		"(*os.File).WriteString":  libNoop,
+		"fmt.Fprintf":             libFprint,
+		"fmt.Fprintln":            libFprint,
+		"fmt.Fprint":              libFprint,
+		"(io.Writer).Write":       libWrite,
+		"io.WriteString":          libWriteString,
 		"unicode/utf8.DecodeRune": libDecodeRune,
-		"unicode.IsLetter":      libIsLetter,
-		"math.Log":              libLog,
-		"math.IsNaN":            libIsNaN,
-		"math.Floor":            libFloor,
-		"sort.SearchInts":       libSearch,
+		"unicode.IsLetter":        libIsLetter,
+		"math.Log":                libLog,
+		"math.IsNaN":              libIsNaN,
+		"math.Floor":              libFloor,
+		"sort.SearchInts":         libSearch,
 		"(github.com/biogo/hts/sam.CigarOp).Type":       libCigType,
 		"(github.com/biogo/hts/sam.CigarOpType).String": libCigTypeString,
 		"(github.com/biogo/hts/sam.CigarOp).Len":        libCigLen,
@@ -41,19 +42,19 @@ func init() {
 		"github.com/biogo/hts/sam.NewReader":            libSamNewReader,
 		"(*github.com/biogo/hts/sam.Reader).Header":     libSamHeader,
 		"(*github.com/biogo/hts/sam.Reader).Read":       libSamRead,
-		"sort.SearchStrings":    libSearch,
-		"sort.SliceStable":      libSortSlice,
-		"bufio.NewScanner":          libNewScanner,
-		"(*bufio.Scanner).Buffer":   libScannerBuffer,
-		"(*bufio.Scanner).Scan":     libScannerScan,
-		"(*bufio.Scanner).Bytes":    libScannerBytes,
-		"(*bufio.Scanner).Text":     libScannerText,
-		"(*bufio.Scanner).Err":      libScannerErr,
-		"strings.Fields":            libFields,
-		"strings.Split":             libSplit,
-		"encoding/csv.NewReader":    libNewCSVReader,
-		"(*encoding/csv.Reader).Read": libCSVRead,
-		"sort.Slice":            libSortSlice,
+		"sort.SearchStrings":                            libSearch,
+		"sort.SliceStable":                              libSortSlice,
+		"bufio.NewScanner":                              libNewScanner,
+		"(*bufio.Scanner).Buffer":                       libScannerBuffer,
+		"(*bufio.Scanner).Scan":                         libScannerScan,
+		"(*bufio.Scanner).Bytes":                        libScannerBytes,
+		"(*bufio.Scanner).Text":                         libScannerText,
+		"(*bufio.Scanner).Err":                          libScannerErr,
+		"strings.Fields":                                libFields,
+		"strings.Split":                                 libSplit,
+		"encoding/csv.NewReader":                        libNewCSVReader,
+		"(*encoding/csv.Reader).Read":                   libCSVRead,
+		"sort.Slice":                                    libSortSlice,
 	}
 }
 
@@ -338,7 +339,6 @@ func libSortSlice(x *Exec, n *ast.CallExpr, recv *Val, recvExpr ast.Expr, st *St
 	return Val{}
 }
 
-
 // bufio.Scanner with the default ScanLines split: a finite ghost sequence of lines (byte slices in the heap, arbitrary
 // contents), a position, and an arbitrary final error.
 func libNewScanner(x *Exec, n *ast.CallExpr, recv *Val, recvExpr ast.Expr, st *State, env *Env) Val {
@@ -412,7 +412,6 @@ func libFields(x *Exec, n *ast.CallExpr, recv *Val, recvExpr ast.Expr, st *State
 	return Val{T: c.define("sl", sortSlice, app("mkSlice", ref, "0", ln, ln)), Ty: types.NewSlice(tString)}
 }
 
-
 // strings.Split(s, sep) with a non-empty separator: a fresh slice of at least one string, contents a function of (s, sep)
 func libSplit(x *Exec, n *ast.CallExpr, recv *Val, recvExpr ast.Expr, st *State, env *Env) Val {
 	c := x.c
@@ -464,18 +463,15 @@ func (x *Exec) pkgVar(pkg, name string, ty types.Type) string {
 	return n
 }
 
-
 func libIsNaN(x *Exec, n *ast.CallExpr, recv *Val, recvExpr ast.Expr, st *State, env *Env) Val {
 	v := x.defaultType(x.eval(n.Args[0], st, env))
 	return Val{T: x.c.accessor("f.nan", v.T), Ty: tBool}
 }
 
-
 func libFloor(x *Exec, n *ast.CallExpr, recv *Val, recvExpr ast.Expr, st *State, env *Env) Val {
 	v := x.defaultType(x.eval(n.Args[0], st, env))
 	return Val{T: app("f.floor", v.T), Ty: tFloat}
 }
-
 
 // sort.SearchInts / sort.SearchStrings: on an ascending slice, the least index whose element is >= x (len if none).
 // Sortedness is an obligation at the call site (pre@sort.Search); the characterisation is assumed only under it.
@@ -508,7 +504,6 @@ func libSearch(x *Exec, n *ast.CallExpr, recv *Val, recvExpr ast.Expr, st *State
 	return Val{T: idx, Ty: tInt}
 }
 
-
 // biogo/hts sam: CIGAR operations are opaque integers with an operation type (a byte whose String() is one of
 // M I D N S H P = X B ?) and a non-negative length; Seq.Expand() returns a fresh byte slice of Seq.Length bytes.
 func libCigType(x *Exec, n *ast.CallExpr, recv *Val, recvExpr ast.Expr, st *State, env *Env) Val {
@@ -530,7 +525,6 @@ func libSeqExpand(x *Exec, n *ast.CallExpr, recv *Val, recvExpr ast.Expr, st *St
 	c.assume(st.pc, app(">=", ln, "0"))
 	return Val{T: c.define("sl", sortSlice, app("mkSlice", ref, "0", ln, ln)), Ty: types.NewSlice(tByte)}
 }
-
 
 // biogo sam.Reader: NewReader either fails (nil reader, non-nil error) or yields a reader over a finite ghost sequence of
 // records; Read returns the next record or io.EOF, or a parse error; Header() dereferences the reader.
@@ -581,4 +575,27 @@ func libSamRead(x *Exec, n *ast.CallExpr, recv *Val, recvExpr ast.Expr, st *Stat
 	x.assumeWFAtom(st, Val{T: rec.T, Ty: seq.Seq.Elem})
 	err := Val{T: c.define("err", sortErr, ite(more, ite(bad, perr, "err.nil"), eof)), Ty: tError}
 	return Val{Tuple: []Val{rec, err}}
+}
+
+// io.WriteString(w, s): one Write of the string's bytes on w (same adversarial model as Write)
+func libWriteString(x *Exec, n *ast.CallExpr, recv *Val, recvExpr ast.Expr, st *State, env *Env) Val {
+	c := x.c
+	w := x.eval(n.Args[0], st, env)
+	sv := x.eval(n.Args[1], st, env)
+	nres := c.freshConst("nwritten", "Int")
+	e := c.freshConst("werr", sortErr)
+	fk := "failed:" + w.T
+	cur, ok := st.gh[fk]
+	if !ok {
+		panic(unsupported("io.WriteString on a writer without ghost state"))
+	}
+	st.gh[fk] = Val{T: c.define("failed", "Bool", or(cur.T, not(eq(e, "err.nil")))), Ty: tBool}
+	if lg, ok := st.gh["written:"+w.T]; ok {
+		sq := *lg.Seq
+		sq.Arr = c.define("wlog", "(Array Int Str)", app("store", lg.Seq.Arr, lg.Seq.N, sv.T))
+		sq.N = c.define("wlog.n", "Int", add(lg.Seq.N, "1"))
+		st.gh["written:"+w.T] = Val{Seq: &sq, Ty: lg.Ty}
+	}
+	c.trusted["io.Writer.Write: returns an arbitrary (n, err); ghost failed(w) set iff err != nil (adversarial writer)"] = true
+	return Val{Tuple: []Val{{T: nres, Ty: tInt}, {T: e, Ty: tError}}}
 }
